@@ -1080,8 +1080,12 @@ func genRepeat(r *rng, o progOpts) Step {
 	if o.fatalActions {
 		na = r.between(2, 4)
 	}
+	caseTwin := na >= 2 && r.chance(1, 4)
 	for i := 0; i < na; i++ {
 		a := Action{Name: fmt.Sprintf("A%d", i)}
+		if caseTwin && i == 1 {
+			a.Name = "a0" // two action names that differ only in case: still two actions, in one fixed order
+		}
 		// skip before drawing (state dependent or hash of earlier draws)
 		if r.chance(1, 3) {
 			a.Steps = append(a.Steps, Step{Op: "skipif", Pred: Pred{Typ: "ctr", K: int64(r.between(3, 40))}})
